@@ -207,50 +207,79 @@ func runR162(c *core.Ctx) {
 		f, fd := mustDecl(c, rel, name)
 		sig := f.Type().(*types.Signature)
 		errRes := sig.Results().At(1)
-		// a bool "found" variable from LocateOriginalKey; `if !found { err = <non-nil> }`; final return returns err
+		// the "found" flag: second result of LocateOriginalKey or of a comma-ok lookup in the set's map.  On every path on
+		// which it is known to be false the function returns a non-nil error (directly, or through an error variable that
+		// was assigned one on that path) — whatever the layout (if !found { err = … }, early return, if/else)
 		var found types.Object
 		ast.Inspect(fd.Body, func(n ast.Node) bool {
 			if as, ok := n.(*ast.AssignStmt); ok && len(as.Rhs) == 1 && len(as.Lhs) == 2 {
-				if call, ok := core.Unparen(as.Rhs[0]).(*ast.CallExpr); ok {
-					if cf := core.Callee(inf, call); cf != nil && cf.Name() == "LocateOriginalKey" {
+				switch r := core.Unparen(as.Rhs[0]).(type) {
+				case *ast.CallExpr:
+					if cf := core.Callee(inf, r); cf != nil && cf.Name() == "LocateOriginalKey" {
 						found = core.ObjOf(inf, as.Lhs[1])
+					}
+				case *ast.IndexExpr:
+					if _, isMap := inf.Types[r.X].Type.Underlying().(*types.Map); isMap {
+						if root := rootIdent(r.X); root != nil && inf.Uses[root] == recvObj(inf, fd) {
+							found = core.ObjOf(inf, as.Lhs[1])
+						}
 					}
 				}
 			}
 			return true
 		})
 		okErr := false
-		var errVar types.Object
-		ast.Inspect(fd.Body, func(n ast.Node) bool {
-			ifs, ok := n.(*ast.IfStmt)
-			if !ok {
-				return true
-			}
-			u, ok := core.Unparen(ifs.Cond).(*ast.UnaryExpr)
-			if !ok || u.Op != token.NOT || core.ObjOf(inf, u.X) != found || found == nil {
-				return true
-			}
-			for _, s := range ifs.Body.List {
-				switch st := s.(type) {
-				case *ast.AssignStmt:
-					if len(st.Lhs) == 1 && core.NonNilErrorExpr(inf, st.Rhs[0]) {
-						errVar = core.ObjOf(inf, st.Lhs[0])
-						okErr = true
+		if found != nil {
+			notFoundReturns, bad := 0, 0
+			// bit 1: found known false; bit 2: an error variable holds a non-nil error
+			var errVar types.Object
+			core.NewFlow(c.M, inf, fd.Body).Run(&core.Automaton{
+				Init: 0,
+				Node: func(st int, n ast.Node) int {
+					switch x := n.(type) {
+					case *ast.AssignStmt:
+						for i, l := range x.Lhs {
+							if i < len(x.Rhs) && len(x.Lhs) == len(x.Rhs) && core.IsErrorType(inf.Types[x.Rhs[i]].Type) || (i < len(x.Rhs) && core.NonNilErrorExpr(inf, x.Rhs[i])) {
+								if core.NonNilErrorExpr(inf, x.Rhs[i]) {
+									errVar = core.ObjOf(inf, l)
+									st |= 2
+								}
+							}
+						}
+					case *ast.ReturnStmt:
+						if st&1 != 0 {
+							notFoundReturns++
+							okRet := false
+							if len(x.Results) == 2 {
+								if core.NonNilErrorExpr(inf, x.Results[1]) || (st&2 != 0 && core.ObjOf(inf, x.Results[1]) == errVar) {
+									okRet = true
+								}
+							}
+							if len(x.Results) == 0 && st&2 != 0 && errVar == errRes {
+								okRet = true
+							}
+							if !okRet {
+								bad++
+							}
+						}
 					}
-				case *ast.ReturnStmt:
-					if len(st.Results) == 2 && core.NonNilErrorExpr(inf, st.Results[1]) {
-						okErr = true
+					return st
+				},
+				Edge: func(st int, facts []core.Fact) (int, bool) {
+					for _, f := range facts {
+						if id, ok := core.Unparen(f.Expr).(*ast.Ident); ok && core.ObjOf(inf, id) == found {
+							if !f.Val {
+								return st | 1, true
+							}
+							if st&1 != 0 {
+								return st, false
+							}
+						}
 					}
-				}
-			}
-			return true
-		})
-		// the last return returns errVar
-		if okErr && errVar != nil {
-			last, ok := fd.Body.List[len(fd.Body.List)-1].(*ast.ReturnStmt)
-			if !ok || (len(last.Results) == 2 && core.ObjOf(inf, last.Results[1]) != errVar) || (len(last.Results) == 0 && errVar != errRes) {
-				okErr = false
-			}
+					return st, true
+				},
+			})
+			okErr = notFoundReturns > 0 && bad == 0
 		}
 		c.Check(okErr, rel, name, "a key that was never requested yields an error", fd.Pos(), "", "no non-nil error on the not-found edge")
 	}
@@ -319,106 +348,67 @@ func runR163(c *core.Ctx) {
 	inf := info(c, rel)
 	for _, name := range []string{"(*genericBatchKeySet).AddKey", "(*primitiveKeySet).AddKey"} {
 		_, fd := mustDecl(c, rel, name)
-		// top-level: an if returning a non-nil error, positioned before the first mutation of s.originalKeys
-		var guardPos, mutPos token.Pos
-		for _, s := range fd.Body.List {
-			if ifs, ok := s.(*ast.IfStmt); ok && guardPos == 0 {
-				for _, bs := range ifs.Body.List {
-					if r, ok := bs.(*ast.ReturnStmt); ok && len(r.Results) == 1 && core.NonNilErrorExpr(inf, r.Results[0]) {
-						guardPos = ifs.Pos()
+		recv := recvObj(inf, fd)
+		// no path modifies the set and then reports an error: the duplicate test comes first, however it is written
+		// (flag and break, early return from the loop, comma-ok lookup)
+		rejects, dirtyReject, mutations := 0, 0, 0
+		core.NewFlow(c.M, inf, fd.Body).Run(&core.Automaton{
+			Init: 0,
+			Node: func(st int, n ast.Node) int {
+				var lhs []ast.Expr
+				switch x := n.(type) {
+				case *ast.AssignStmt:
+					lhs = x.Lhs
+				case *ast.IncDecStmt:
+					lhs = []ast.Expr{x.X}
+				case *ast.ReturnStmt:
+					if len(x.Results) == 1 && core.NonNilErrorExpr(inf, x.Results[0]) {
+						rejects++
+						if st == 1 {
+							dirtyReject++
+						}
 					}
 				}
-			}
-		}
-		ast.Inspect(fd.Body, func(n ast.Node) bool {
-			var lhs []ast.Expr
-			switch x := n.(type) {
-			case *ast.AssignStmt:
-				lhs = x.Lhs
-			case *ast.IncDecStmt:
-				lhs = []ast.Expr{x.X}
-			}
-			for _, l := range lhs {
-				if r := rootIdent(l); r != nil && inf.Uses[r] == recvObj(inf, fd) {
-					if _, isIdent := core.Unparen(l).(*ast.Ident); !isIdent && (mutPos == 0 || l.Pos() < mutPos) {
-						mutPos = l.Pos()
+				for _, l := range lhs {
+					if r := rootIdent(l); r != nil && inf.Uses[r] == recv && recv != nil {
+						if _, isIdent := core.Unparen(l).(*ast.Ident); !isIdent {
+							mutations++
+							return 1
+						}
 					}
 				}
-			}
-			return true
+				return st
+			},
 		})
-		c.Check(guardPos != 0 && mutPos != 0 && guardPos < mutPos, rel, name, "a duplicate is rejected before the set is modified", fd.Pos(), "", "no error return for an already-present key before the insert")
+		c.Check(rejects > 0 && mutations > 0 && dirtyReject == 0, rel, name, "a duplicate is rejected before the set is modified", fd.Pos(), "",
+			fmt.Sprintf("error returns: %d, of which after a modification of the set: %d; modifications: %d", rejects, dirtyReject, mutations))
 	}
 	for _, name := range []string{"AddAllKeys", "AddAllMapKeys"} {
 		_, fd := mustDecl(c, rel, name)
-		okLoop := false
-		ast.Inspect(fd.Body, func(n ast.Node) bool {
-			rs, ok := n.(*ast.RangeStmt)
-			if !ok {
-				return true
-			}
-			var errObj types.Object
-			for _, s := range rs.Body.List {
-				switch st := s.(type) {
-				case *ast.AssignStmt:
-					if len(st.Rhs) == 1 {
-						if call, ok := core.Unparen(st.Rhs[0]).(*ast.CallExpr); ok {
-							if cf := core.Callee(inf, call); cf != nil && cf.Name() == "AddKey" {
-								errObj = core.ObjOf(inf, st.Lhs[0])
-							}
-						}
-					}
-				case *ast.IfStmt:
-					for _, f := range core.Decompose(st.Cond, true, nil) {
-						if e, nonNil, ok := core.NilTest(inf, f); ok && nonNil && core.ObjOf(inf, e) == errObj && errObj != nil {
-							for _, bs := range st.Body.List {
-								if r, ok := bs.(*ast.ReturnStmt); ok && len(r.Results) == 1 && core.ObjOf(inf, r.Results[0]) == errObj {
-									okLoop = true
-								}
-							}
-						}
-					}
-				}
-			}
-			return true
-		})
-		c.Check(okLoop, rel, name, "the first AddKey error stops the loop and is returned", fd.Pos(), "", "AddKey errors are not returned from inside the loop")
+		r := errFlow(c, inf, fd, func(call *ast.CallExpr) bool {
+			cf := core.Callee(inf, call)
+			return cf != nil && cf.Name() == "AddKey"
+		}, nil)
+		c.Check(r.sources > 0 && r.propagated && !r.lost, rel, name, "the first AddKey error stops the loop and is returned", fd.Pos(), "",
+			fmt.Sprintf("AddKey calls whose error is followed: %d, returned on its non-nil branch: %v, overwritten or dropped on some path: %v", r.sources, r.propagated, r.lost))
 	}
 	const r2 = "restli"
 	rinf := info(c, r2)
 	for _, name := range []string{"BatchGet", "BatchDelete", "BatchUpdate", "BatchPartialUpdate"} {
 		_, d := mustDecl(c, r2, name)
-		var addIdx, reqIdx = -1, -1
-		retOK := false
-		for i, s := range d.Body.List {
-			ast.Inspect(s, func(n ast.Node) bool {
-				if call, ok := n.(*ast.CallExpr); ok {
-					if cf := core.Callee(rinf, call); cf != nil {
-						if (cf.Name() == "AddAllKeys" || cf.Name() == "AddAllMapKeys") && addIdx < 0 {
-							addIdx = i
-						}
-						if strings.HasPrefix(cf.Name(), "New") && strings.HasSuffix(cf.Name(), "Request") && reqIdx < 0 {
-							reqIdx = i
-						}
-					}
-				}
-				return true
-			})
-		}
-		if addIdx >= 0 && addIdx+1 < len(d.Body.List) {
-			if ifs, ok := d.Body.List[addIdx+1].(*ast.IfStmt); ok {
-				for _, f := range core.Decompose(ifs.Cond, true, nil) {
-					if e, nonNil, ok := core.NilTest(rinf, f); ok && nonNil && core.IsErrorType(rinf.Types[e].Type) {
-						for _, bs := range ifs.Body.List {
-							if r, ok := bs.(*ast.ReturnStmt); ok && len(r.Results) == 2 && core.ObjOf(rinf, r.Results[1]) == core.ObjOf(rinf, e) {
-								retOK = true
-							}
-						}
-					}
-				}
+		r := errFlow(c, rinf, d, func(call *ast.CallExpr) bool {
+			cf := core.Callee(rinf, call)
+			return cf != nil && (cf.Name() == "AddAllKeys" || cf.Name() == "AddAllMapKeys")
+		}, func(n ast.Node) bool {
+			call, ok := n.(*ast.CallExpr)
+			if !ok {
+				return false
 			}
-		}
-		c.Check(retOK && reqIdx > addIdx+1, r2, name, "a duplicate key aborts the call before the request is built", d.Pos(), "", fmt.Sprintf("error return after add-keys: %v; request constructor after it: %v", retOK, reqIdx > addIdx+1))
+			cf := core.Callee(rinf, call)
+			return cf != nil && strings.HasPrefix(cf.Name(), "New") && strings.HasSuffix(cf.Name(), "Request")
+		})
+		c.Check(r.sources > 0 && r.propagated && !r.lost && len(r.early) == 0, r2, name, "a duplicate key aborts the call before the request is built", d.Pos(), "",
+			fmt.Sprintf("add-keys calls: %d; their error returned: %v, lost on some path: %v; request constructors reachable before the error was tested: %d", r.sources, r.propagated, r.lost, len(r.early)))
 	}
 }
 
@@ -548,6 +538,11 @@ func runR165(c *core.Ctx) {
 			}
 		case *ast.RangeStmt:
 			if core.ObjOf(inf, x.X) == sorted && sorted != nil {
+				rangesSorted = true
+			}
+		case *ast.ForStmt:
+			// for i := 0; i < len(sorted); i++ : the ascending index walk of the same slice
+			if inc, ok := x.Post.(*ast.IncDecStmt); ok && inc.Tok == token.INC && x.Cond != nil && sorted != nil && mentions(inf, x.Cond, sorted) {
 				rangesSorted = true
 			}
 		}
